@@ -35,6 +35,9 @@ CHECKS = {
   text="Codec-over-lossy-link simulation for the 12 stateful depacketizers: real encoder -> packets tagged (frame, position) -> simulated link whose seeded, explicit fault schedule drops / duplicates / late-duplicates / swaps packets and drops whole frames -> real decoder; history oracle: every frame that is clean by the statement's definition (its packets and its predecessor's arrived once, in order, contiguously) is returned intact exactly once, no later than the Decode call of the next frame's first packet; no panic; a fault-free configuration runs alongside. Seeded search over fault schedules and frame shapes, not enumeration.",
   note="Real: the encoders and decoders of pkg/format/rtp*. Simulated: the link (packet fates). No clock or concurrency is involved; frames are valid inputs built by the harness. What a decoder returns for frames that are not clean is unconstrained. A stray packet of an older frame landing between two intact frames counts as damage to the frame it precedes (conservative reading).",
   tech="deterministic simulation: seeded fault-schedule search over a lossy link, history oracle", ref="3.4"),
+ "C11": dict(
+  text="Whole-system deterministic simulation with 1..4 simultaneous hostile scripted control connections (valid play/record conversations, interleaved frames in any state, HTTP-tunnel and WebSocket handshakes, base64 blocks, garbage; 16 grammar/byte-level mutation kinds; every chunking; ending in close, RST or silence; plain or after a TLS handshake) next to a well-behaved real client: no panic or deadlock, every hostile connection answered or closed within the configured timeouts (simulated time), the well-behaved client's stream stays in order and gap-free, and after all timeouts the server registries, stream reader slots, server-node sockets and library goroutine count are back at the baseline taken before the attack; a fresh client is then served; OnConnOpen/OnConnClose balanced.",
+  note=WHOLE_NOTE, tech="deterministic simulation with fault injection: hostile scripted peers, resource census vs baseline", ref="3.6"),
  "C13": dict(
   text="Whole-system deterministic simulation with Server.Close, ServerStream.Close and Client.Close (from another goroutine) landing at seeded instants between any two protocol steps - idle, mid-handshake, playing, recording, paused, with a writer running, with peers that stopped reading (bounded window) or vanished - and seeded holds at ~40 yield sites on the shutdown paths; oracles: Close latency in simulated time, socket census of the closed object's node, goroutines attributed to the closed object (creator chains) and a complete end-of-run census, open/close notification balance and no packet/request callback after OnSessionClose (global sequence numbers).",
   note=WHOLE_NOTE, tech="deterministic simulation with fault injection: close-point and shutdown-interleaving search, census + callback-history oracle", ref="3.8"),
